@@ -73,6 +73,8 @@ type checkOutcome struct {
 	discharged  int
 	knownObls   []string
 	vanished    []string
+	coversTotal int
+	coversSat   int
 	errors      []string
 	byBackend   map[string]int
 	solverTime  float64
@@ -305,6 +307,10 @@ func classify(p *Prog, oc *checkOutcome, work string, doReplay bool) {
 			generated[name] = true
 			oc.solverTime += r.Res.Time
 			if r.O.Cover {
+				oc.coversTotal++
+				if r.Res.Verdict == "sat" {
+					oc.coversSat++
+				}
 				// vacuity check: must be satisfiable
 				if k := strings.Index(name, "-back-edge:from"); k >= 0 {
 					// a loop with several back edges: some may be legitimately dead (short-circuit re-evaluation of
@@ -507,6 +513,7 @@ func writeEvidence(oc *checkOutcome, seed int, wall float64) {
 		"samples":                   oc.samples,
 		"machinery_errors":          oc.errors,
 		"selftest":                  oc.selftest,
+		"vacuity_covers":            map[string]int{"generated": oc.coversTotal, "reachable": oc.coversSat},
 		"bounded_standins":          oc.bounded,
 		"explanation":               "Each obligation is one SMT query generated from the go/ssa form of the real function in /repo plus its //@ contract; 'discharged' counts queries answered unsat. Known-finding obligations are excluded from both counts.",
 	}
